@@ -1,7 +1,7 @@
 //! C16: executes the judged argument-domain cases on the real public API. One case at a time,
 //! journalled on stdout ("START id" / "DONE {json}") so that an abort is attributed to its case.
 use crate::util::*;
-use prio::codec::{Encode, ParameterizedDecode};
+use prio::codec::{Decode, Encode, ParameterizedDecode};
 use prio::dp::distributions::{DiscreteGaussian, DiscreteLaplace};
 use prio::dp::{PureDpBudget, Rational, ZCdpBudget};
 use prio::field::{Field128, Field64, FieldElement, FieldElementWithInteger};
@@ -242,6 +242,61 @@ fn exec(c: &Value) -> R {
                 let vs: Vec<_> = (0..2).map(|j| v.verify_init(&[3; 32], b"c16", j, &(), &[1; 16], &(), &shares[j]).unwrap().1).collect();
                 let cnt = small(c, "count") as usize;
                 okerr(v.verifier_shares_to_message(b"c16", &(), (0..cnt).map(|k| vs[k.min(1)].clone())))
+            }
+            "aggparam_new" => {
+                let plen = small(c, "plen") as usize;
+                let mk = |last: [bool; 2]| -> IdpfInput {
+                    // prefixes differ in their last two bits (or only bit), so the order is decided at the far end
+                    let mut b = vec![true; plen];
+                    if plen >= 2 { b[plen - 2] = last[0]; }
+                    if plen >= 1 { b[plen - 1] = last[1]; }
+                    IdpfInput::from_bools(&b)
+                };
+                let shape = c["shape"].as_str().unwrap();
+                let list: Vec<IdpfInput> = match shape {
+                    "one" => vec![mk([true, false])],
+                    "two_sorted" => vec![mk([true, false]), mk([true, true])],
+                    "three_sorted" => vec![mk([false, true]), mk([true, false]), mk([true, true])],
+                    "two_unsorted" => vec![mk([true, true]), mk([true, false])],
+                    "two_equal" => vec![mk([true, true]), mk([true, true])],
+                    "mixed_length" => vec![mk([true, false]), IdpfInput::from_bools(&vec![true; plen + 1])],
+                    _ => vec![],
+                };
+                match Poplar1AggregationParam::try_from_prefixes(list.clone()) {
+                    Ok(ap) => {
+                        // usable: reports its level and prefixes, round-trips through its encoding with the advertised length
+                        let enc = ap.get_encoded().map_err(|e| e.to_string());
+                        match enc {
+                            Ok(bytes) => {
+                                if ap.level() + 1 != plen || ap.prefixes() != &list[..] || ap.encoded_len() != Some(bytes.len()) { return Out::Unusable("level/prefixes/encoded_len".into()); }
+                                match Poplar1AggregationParam::get_decoded(&bytes) { Ok(back) if back == ap => Out::Ok, _ => Out::Unusable("round trip".into()) }
+                            }
+                            Err(e) => Out::Unusable(e),
+                        }
+                    }
+                    Err(_) => Out::Err,
+                }
+            }
+            "aggparam_decode" => {
+                let (level, count, extra) = (small(c, "level") as usize, small(c, "count") as usize, c["extra"].as_i64().unwrap());
+                let sorted = c["sorted"].as_bool().unwrap();
+                let nbytes = (level + 1 + 7) / 8;
+                let mut bytes = vec![(level >> 8) as u8, level as u8];
+                bytes.extend_from_slice(&(count as u32).to_be_bytes());
+                for k in 0..count {
+                    // canonical prefixes (padding bits zero) that increase (or decrease) in their first three bits
+                    let idx = if sorted { k } else { count - 1 - k };
+                    let mut p = vec![0u8; nbytes];
+                    let top = (level + 1).min(2);
+                    p[0] = ((idx as u8) & ((1 << top) - 1)) << (8 - top);
+                    bytes.extend_from_slice(&p);
+                }
+                if extra > 0 { bytes.push(0); }
+                if extra < 0 { bytes.pop(); }
+                match Poplar1AggregationParam::get_decoded(&bytes) {
+                    Ok(ap) => if ap.level() == level && ap.prefixes().len() == count && ap.get_encoded().ok().as_deref() == Some(&bytes[..]) { Out::Ok } else { Out::Unusable("decoded value".into()) },
+                    Err(_) => Out::Err,
+                }
             }
             "vinit_poplar1" | "s2m_poplar1" | "vinit_poplar1_level" => {
                 let bits = 8usize;
